@@ -147,11 +147,24 @@ func (n *docNode) intv() sym {
 			n.e.declare(name, sInt, 0)
 			lim := fmt.Sprint(int64(1) << uint(n.e.gridMag()))
 			n.e.PC = append(n.e.PC, "(<= (- "+lim+") "+name+")", "(<= "+name+" "+lim+")")
+			n.linkNumberViews()
 		}
 		return sym{sInt, 0, name}
 	}
 	return n.e.named(name, sBV, 64)
 }
+// linkNumberViews (exact-grid mode): a number node is ONE JSON number; when it is written as an
+// integer, the value a typed integer field receives (i) and the value an untyped or float
+// position receives (f) are the same number.  Added once both views exist.
+func (n *docNode) linkNumberViews() {
+	ni, nf := n.name("i"), n.name("f")
+	if !n.e.declared[ni] || !n.e.declared[nf] || n.e.declared["link:"+ni] {
+		return
+	}
+	n.e.declared["link:"+ni] = true
+	n.e.PC = append(n.e.PC, "(=> "+n.isint().t+" (= "+nf+" (* "+gridScale().String()+" "+ni+")))")
+}
+
 func (n *docNode) isint() sym { return n.e.named(n.name("isint"), sBool, 0) }
 func (n *docNode) strv() sym  { return n.e.named(n.name("s"), sStr, 0) }
 
@@ -166,6 +179,7 @@ func (n *docNode) floatv() sym {
 			n.e.declare(name, sStr, 0)
 			lim := fmt.Sprint(int64(1) << uint(n.e.gridMag()+gridBits))
 			n.e.PC = append(n.e.PC, "(<= (- "+lim+") "+name+")", "(<= "+name+" "+lim+")")
+			n.linkNumberViews()
 		}
 		return sym{sReal, 0, name}
 	}
